@@ -402,4 +402,10 @@ def run(ctx):
             run.instance(R6, {"fn": "set_keychain", "obligation": "master_checksum is taken before the key is masked"}, held=h)
             if not h:
                 run.finding(Finding(R6, sk.id, "master_checksum is not computed from the unmasked keychain", site=sk.loc()))
+    R10 = "C14.R10"
+    run.rule(R10, "the token is random: the mask set_keychain draws comes from the system RNG on every production path (use_test_rng is the literal false, or follows doctest_mode) - with the test RNG, a fixed sequence, every masked wallet gets the same token, and another wallet's or an earlier session's token is accepted", floor=2)
+    from .shared import test_rng_roots
+    n10 = test_rng_roots(ctx, R10, [("<" + c.IMPLS + "backends::lmdb::LMDBBackend<'ck, C, K> as " + c.LW + "types::WalletBackend<'ck, C, K>>::set_keychain", "use_test_rng")], "every masked wallet opened this way gets the same, predictable token")
+    if n10 == 0:
+        run.error("C14.R10: no root of set_keychain's use_test_rng found (anchor missing)")
     run.not_decided += ["'behaves exactly like an unmasked wallet' (equality of behaviours)", "which read-only queries reveal non-secret data without a token (listed under R4b, by design)"]
